@@ -33,7 +33,7 @@ from typing import Any, Dict, List, Optional, Tuple
 from core import Case, REPO
 
 PID = "C07"
-LEAN_MODULES = ["KrroodVerif.Props.C07"]
+LEAN_MODULES = ["KrroodVerif.Props.C07", "KrroodVerif.Props.C07Table"]
 THEOREMS = [
     "KrroodVerif.SqlTr.C07_preserves_partial",
     "KrroodVerif.SqlTr.C07_the_partial",
@@ -45,7 +45,72 @@ THEOREMS = [
     "KrroodVerif.SqlTr.C07_cex_set_of_escapes",
     "KrroodVerif.SqlTr.C07_cex_eq_join_under_or",
     "KrroodVerif.SqlTr.C07_cex_like_substring",
+    "KrroodVerif.SqlTr.C07_cex_string_truthiness",
+    "KrroodVerif.SqlTr.C07_cex_var_eq_obj",
+    # generic in the evaluation of WHERE conditions / in the operator table (second tie, Props/C07Table.lean)
+    "KrroodVerif.SqlTr.C07_preserves_with",
+    "KrroodVerif.SqlTr.evalSql_sem",
+    "KrroodVerif.SqlTr.evalSqlT_sem",
+    "KrroodVerif.SqlTr.C07_table_preserves",
+    "KrroodVerif.SqlTr.C07_table_the",
+    "KrroodVerif.SqlTr.C07_opTable_ok",
+    "KrroodVerif.SqlTr.cmpT_opTable",
+    "KrroodVerif.SqlTr.memT_opTable",
+    "KrroodVerif.SqlTr.subT_opTable",
+    "KrroodVerif.SqlTr.evalSqlT_opTable",
+    "KrroodVerif.SqlTr.C07_table_cex_le_as_lt",
+    "KrroodVerif.SqlTr.C07_table_cex_legacy_ne",
+    "KrroodVerif.SqlTr.C07_table_cex_legacy_in",
+    "KrroodVerif.SqlTr.C07_table_cex_like",
+    "KrroodVerif.SqlTr.C07_dispatch_rejects",
+    "KrroodVerif.SqlTr.C07_operand_rejects",
+    "KrroodVerif.SqlTr.C07_query_rejects",
 ]
+TRANSLATED = ["KrroodVerif.SqlTr.Translated.C07_opTable_translated_eq_model",
+              "KrroodVerif.SqlTr.Translated.C07_dispatch_translated_eq_model",
+              "KrroodVerif.SqlTr.Translated.C07_translated_table_ok",
+              "KrroodVerif.SqlTr.Translated.C07_translated_preserves"]
+
+
+def extra_obligations():
+    """Second tie: regenerate the operator / dispatch / rejection tables of `eql_interface.py` from /repo's CURRENT source
+    (Python ast) and have the kernel re-check (1) that they equal the model's tables (for which `cmpT_opTable`,
+    `memT_opTable`, `subT_opTable`, `C07_dispatch_rejects` … prove that the hand-written model IS their interpretation),
+    (2) `tableOk` of the regenerated operator table (by `decide`) and hence, by `C07_table_preserves`, the property for the
+    translation with that table.  The four obligations are elaborated one by one, so that e.g. a table that differs from
+    the model's but still passes `tableOk` is reported as exactly that."""
+    import re
+    import subprocess
+    import core
+    from translate.c07_translate import generate as gen, TranslationError
+    try:
+        text = gen(core.REPO)
+    except (TranslationError, SyntaxError, OSError, RecursionError) as e:
+        return [{"name": n, "ok": False, "detail": f"translator rejected the source: {e}"} for n in TRANSLATED]
+    tmp = core.LEAN_DIR / ".lake" / "audit"
+    tmp.mkdir(parents=True, exist_ok=True)
+    f = tmp / f"C07Translated_{os.getpid()}.lean"
+    f.write_text(text + "".join(f"#print axioms {n}\n" for n in TRANSLATED))
+    try:
+        p = subprocess.run(["lake", "env", "lean", str(f)], cwd=str(core.LEAN_DIR), capture_output=True, text=True, timeout=600)
+    finally:
+        try:
+            f.unlink()
+        except OSError:
+            pass
+    out = " ".join(((p.stdout or "") + (p.stderr or "")).split())
+    tables = text[text.find("def opTable"):text.find("/-- the operator logic")]
+    res = []
+    for n in TRANSLATED:
+        m = re.search(r"'" + re.escape(n) + r"' depends on axioms: \[([^\]]*)\]", out)
+        none = re.search(r"'" + re.escape(n) + r"' does not depend on any axioms", out)
+        ax = [a.strip() for a in m.group(1).split(",")] if m else ([] if none else None)
+        # an obligation stands if ITS theorem elaborated with admissible axioms (lean goes on after a failed theorem)
+        ok = ax is not None and set(ax) <= core.ALLOWED_AXIOMS and "sorryAx" not in ax
+        res.append({"name": n, "ok": ok, "axioms": ax,
+                    "detail": "regenerated tables:\n" + tables + (p.stdout or "")[-1500:] + (p.stderr or "")[-800:]})
+    return res
+
 MODEL_FUNCTION = "SqlTr.translate / SqlTr.execSql / SqlTr.evalMem (Model/SqlTr.lean)"
 TRUSTED = [
     "Lean 4.33 kernel; axioms of each theorem listed under coverage.theorems",
@@ -64,7 +129,11 @@ ASSUMPTIONS = [
     "string columns (Body.name) carry the rank of the string in the code-point sorted table the case line states "
     "(equality, order and membership are preserved); the pool has lower-case, mixed-case and `_`/`%`-containing strings; "
     "substring tests are modelled on the decoded strings (instr exact, for all three operand shapes since fix 20e7107; F-C07-5 was the LIKE rendering); a bare string "
-    "attribute used as a condition is not generated (SQLite casts text to 0)",
+    "attribute used as a condition is modelled with SQLite's cast of TEXT to NUMERIC (sqliteTextTruthy: blanks, sign, digits, "
+    "fraction; validated on the real engine for the generated strings, which include '' spelled \"\" in the case line) - F-C07-6",
+    "a whole variable compared with an object: the case line states the first element of the variable's domain (the sample "
+    "extract_from_variable reads); the harness passes every object as the domain, so the sample is the first object of the "
+    "variable's type; only == and != are generated (ordering of two objects raises TypeError in both worlds) - F-C07-7",
     "generated relationship hops are never None and ordering comparisons are never applied to a column holding None "
     "(in memory those raise AttributeError/TypeError instead of answering)",
 ]
@@ -80,6 +149,10 @@ RULE = ("corpus + seeded structured cases over the dataset's Position/Position4D
         "substring tests (contains(lit, attr), contains(attr, lit), contains(attr, attr), both spellings) over names and "
         "literals with `_`, `%`, mixed case; a deterministic family of relationship-valued paths of 1-2 hops (path ==/!= "
         "path, ==/!= None, bare) over a store where an entity's and its parent's/child's/handle's targets differ; "
+        "a deterministic family of bare STRING attributes as conditions (alone, under and_/or_, across 0-1 hops) over name sets on "
+        "which Python's truthiness and SQLite's numeric cast differ and name sets on which they coincide; a deterministic family of "
+        "variable ==/!= object (either operand order, alone and under and_/or_, classes with and without a name, the object being / "
+        "not being the first element of the domain); "
         "3-12 persisted objects incl. None in optional columns; both worlds run for real; non-trivial = the expected "
         "answer is neither empty nor every candidate (or a definite rejection); distinct by case text")
 
@@ -911,8 +984,132 @@ def _rel_path_family(tier: str) -> List[Case]:
     return cases
 
 
+# strings for the truthiness of a string column: SQLite casts TEXT to NUMERIC in a boolean context (leading blanks, sign,
+# digits, fraction; anything else is 0), Python asks for non-emptiness.  `""` is how the case line spells the empty string.
+STRTAB3_RAW = ["", "0", "1", "12a", "a1", "-1", "0.5", ".5", "1e3", "0x1", "+2", "00", "0.0", "-0", "ab", "e5", "-", ".",
+               "B", "a_", "7", "3.0"]
+STRTAB3: List[str] = [t if t else '""' for t in sorted(STRTAB3_RAW)]
+
+
+def _code3(t: str) -> int:
+    return sorted(STRTAB3_RAW).index(t) + 1
+
+
+def _case_line3(the: bool, vars_: List[str], cond: str, sch: Sch, db: _DB, mult: bool) -> str:
+    return "(q (the %s) (kind entity) (vars %s) (cond %s)%s (strtab %s) %s %s)" % (
+        "T" if the else "F", " ".join(vars_), cond, " (mult T)" if mult else "", " ".join(STRTAB3), sch.sexp(), db.sexp())
+
+
+def _str_truthy_family(tier: str) -> List[Case]:
+    """a bare STRING attribute as (part of) the condition: `entity(b, b.name)`, `c.parent.name`, `d.handle.name`, alone and
+    under and_/or_; name sets in which Python's truthiness (non-empty) and SQLite's (numeric prefix != 0) differ (F-C07-6)
+    and name sets in which they coincide (every name is '' or starts with a non-zero number)"""
+    sch = Sch("world")
+    name_sets = [
+        ["ab", "1", "0", ""], ["12a", "a1", "-1"], ["0.5", ".5", "1e3", "0x1"], ["+2", "00", "0.0", "-0"],
+        ["e5", "-", ".", "B", "a_"], ["1", "12a", "-1", "7"], ["", "1", "3.0"], ["", "7", "+2", ".5", "1e3"],
+        ["ab"], ["0"], [""], ["7"],
+    ]
+    if tier == "quick":
+        name_sets = name_sets[:9]
+    cases = []
+    k = 0
+    for names in name_sets:
+        db = _DB(sch)
+        w = db.add("World", {"id": 1}, {})
+        kinds = ["Body", "Handle", "Container"]
+        bodies = [db.add(kinds[i % 3] if len(names) > 1 else "Handle", {"size": 1 + i % 3, "name": _code3(t)}, {"world": w})
+                  for i, t in enumerate(names)]
+        n = len(bodies)
+        for i in range(n):
+            db.add(["FixedConnection", "PrismaticConnection"][i % 2], {}, {"world": w, "parent": bodies[i], "child": bodies[(i + 1) % n]})
+        handles = [b for b in bodies if db.objs[b]["cls"] == "Handle"]
+        for h in handles:
+            db.add("Door", {}, {"world": w, "handle": h, "body": bodies[0]})
+        targets = [("Body", ("name",)), ("Connection", ("parent", "name")), ("FixedConnection", ("child", "name"))]
+        if handles:
+            targets.append(("Door", ("handle", "name")))
+        for root, path in targets:
+            sa = "(sattr %s)" % _ch(0, path)
+            size = _ch(0, path[:-1] + ("size",))
+            conds = [sa, "(and %s (cmp ge %s (lit 2)))" % (sa, size), "(or (cmp eq %s (lit 1)) %s)" % (size, sa),
+                     "(and (cmp ne %s (lit %d)) %s)" % (_ch(0, path), _code3(names[0]), sa)]
+            if tier == "quick":
+                conds = conds[:1] + [conds[1 + k % 3]]
+            for cond in conds:
+                k += 1
+                the = k % 6 == 0
+                tags = ("str-truthy-family", "world", "root-" + root, "string-column", "bare-string-attr",
+                        "hops%d" % (len(path) - 1)) + (("the",) if the else ())
+                cases.append(Case(_case_line3(the, [root], cond, sch, db, k % 2 == 0), tags, "exhaustive"))
+    return cases
+
+
+def _var_obj_family(tier: str) -> List[Case]:
+    """a whole variable compared with an object: `x == obj`, `x != obj`, `Literal(obj) == x`, alone and under and_/or_
+    (F-C07-7: evaluated by Python at translation time on the first element of the variable's domain).  Classes with a
+    `name` (Body, Handle, Container: the sample is replaced by its database id) and without (Position…, Pose, Connection…);
+    the compared objects are value-distinct"""
+    cases = []
+    k = 0
+
+    def add(fam, root, cond, sch, db, kindtag):
+        nonlocal k
+        k += 1
+        the = k % 5 == 0
+        tags = ("var-obj-family", fam, "root-" + root, "var-eq-obj", kindtag) + (("the",) if the else ())
+        cases.append(Case(_case_line(the, "entity", [root], cond, sch, db, k % 2 == 0), tags, "exhaustive"))
+
+    def conds_for(root, db, sch, fam, scalar):
+        dom = db.of(root)
+        smp = dom[0]
+        picks = [dom[0], dom[-1]] + ([dom[len(dom) // 2]] if len(dom) > 2 and tier != "quick" else [])
+        for i in dict.fromkeys(picks):
+            v, o = "(var 0 %d)" % smp, "(obj %d)" % i
+            add(fam, root, "(cmp eq %s %s)" % (v, o), sch, db, "var-eq")
+            add(fam, root, "(cmp ne %s %s)" % (v, o), sch, db, "var-ne")
+            add(fam, root, "(cmp eq %s %s)" % (o, v), sch, db, "lit-left")
+            if scalar is not None:
+                add(fam, root, "(and (cmp ge %s (lit 1)) (cmp eq %s %s))" % (_ch(0, scalar), v, o), sch, db, "under-and")
+                add(fam, root, "(or (cmp eq %s (lit 2)) (cmp eq %s %s))" % (_ch(0, scalar), v, o), sch, db, "under-or")
+                if tier != "quick":
+                    add(fam, root, "(or (cmp ne %s %s) (cmp gt %s (lit 2)))" % (v, o, _ch(0, scalar)), sch, db, "under-or")
+
+    # geom: orientations first (the variable's domain is every object; the sample is the first one OF ITS TYPE)
+    sch = Sch("geom")
+    db = _DB(sch)
+    o1 = db.add("Orientation", {"x": 1, "y": 2, "z": 3, "w": None}, {})
+    o2 = db.add("Orientation", {"x": 2, "y": 2, "z": 1, "w": 4}, {})
+    p1 = db.add("Position", {"x": 1, "y": 2, "z": 3}, {})
+    p2 = db.add("Position4D", {"x": 2, "y": 2, "z": 2, "w": 1}, {})
+    p3 = db.add("Position", {"x": 3, "y": 1, "z": 2}, {})
+    p4 = db.add("Position5D", {"x": 1, "y": 3, "z": 3, "w": 2, "v": 2}, {})
+    db.add("Pose", {}, {"position": p1, "orientation": o1})
+    db.add("Pose", {}, {"position": p3, "orientation": o2})
+    db.add("Pose", {}, {"position": p2, "orientation": o2})
+    for root, scalar in (("Position", ("x",)), ("Position4D", ("w",)), ("Orientation", ("x",)), ("Pose", ("position", "x"))):
+        conds_for(root, db, sch, "geom", scalar)
+    # world
+    sch = Sch("world")
+    db = _DB(sch)
+    w1 = db.add("World", {"id": 1}, {})
+    w2 = db.add("World", {"id": 2}, {})
+    bs = [db.add(c, {"size": 1 + i % 3, "name": _code(t)}, {"world": w1 if i % 2 else w2})
+          for i, (c, t) in enumerate([("Handle", "a"), ("Body", "ab"), ("Container", "b"), ("Body", "bc"), ("Handle", "c")])]
+    db.add("FixedConnection", {}, {"world": w1, "parent": bs[1], "child": bs[0]})
+    db.add("PrismaticConnection", {}, {"world": w1, "parent": bs[3], "child": bs[2]})
+    db.add("FixedConnection", {}, {"world": w2, "parent": bs[1], "child": bs[4]})
+    db.add("Door", {}, {"world": w1, "handle": bs[0], "body": bs[1]})
+    db.add("Door", {}, {"world": w2, "handle": bs[4], "body": bs[3]})
+    for root, scalar in (("Body", ("size",)), ("Handle", ("size",)), ("Connection", ("parent", "size")),
+                         ("FixedConnection", ("child", "size")), ("Door", ("handle", "size")), ("World", ("id",))):
+        conds_for(root, db, sch, "world", scalar)
+    return cases
+
+
 def generate(rng, tier, n):
-    cases = _join_family(tier) + _string_family(tier) + _substring_family(tier) + _rel_path_family(tier)
+    cases = (_join_family(tier) + _string_family(tier) + _substring_family(tier) + _rel_path_family(tier)
+             + _str_truthy_family(tier) + _var_obj_family(tier))
     for i in range(n):
         r = rng.random()
         stream = "single" if r < 0.56 else ("two" if r < 0.76 else ("joinmult" if r < 0.86 else "unsupported"))
@@ -1136,8 +1333,13 @@ def _w_init(repo: str, gendir: str) -> None:
         _W.update(ok=False, err="%s: %s" % (type(e).__name__, e))
 
 
+def _tab(tab):
+    """the string table of a case line; the atom `""` spells the empty string"""
+    return None if tab is None else ["" if t == '""' else t for t in tab]
+
+
 def _build_objects(fam: str, db, tab=None):
-    tab = tab or STRTAB
+    tab = _tab(tab) or STRTAB
     mod = _W["mods"][fam]
     kinds = {}
     sch = Sch(fam)
@@ -1173,7 +1375,7 @@ def _build_query(s, fam: str, objs):
 
     sch = Sch(fam)
     var_classes = sx_field(items, "vars")
-    tab = sx_field(items, "strtab") or STRTAB  # lines without their own table: the legacy table
+    tab = _tab(sx_field(items, "strtab")) or STRTAB  # lines without their own table: the legacy table
 
     def chain_kind(c) -> str:
         """column kind of the chain's last attribute (unknown attributes: int)"""
@@ -1202,6 +1404,10 @@ def _build_query(s, fam: str, objs):
         if o[0] == "lit":
             # a literal on the left must be a symbolic Literal, or Python would reflect the comparison
             return W["Literal"](lit(o[1], kind)) if left else lit(o[1], kind)
+        if o[0] == "var":
+            return vars_[int(o[1])]
+        if o[0] == "obj":
+            return W["Literal"](objs[int(o[1])]) if left else objs[int(o[1])]
         if o[0] == "other":
             base = chain(o[2])
             if o[1] == "index":
@@ -1230,7 +1436,7 @@ def _build_query(s, fam: str, objs):
                 vals = tuple(vals)
             item = operand(e[1], False)
             return E.contains(vals, item) if style.startswith("contains") else E.in_(item, vals)
-        if h == "attr":
+        if h in ("attr", "sattr"):
             return chain(e[1])
         if h == "sub":
             def sop(o):
